@@ -538,8 +538,8 @@ class The(ResultQuantifier[T]):
                 result.update(sources)
             else:
                 raise MultipleSolutionFound(result, sol)
-        if result is None:
-            self._is_false_ = True
+        # decided anew by every evaluation (a nested `the` is evaluated once per binding of the enclosing query).
+        self._is_false_ = result is None
         if self._is_false_:
             if self._yield_when_false_:
                 result = sources
